@@ -508,7 +508,7 @@ class Recorder:
     """Interposes on RepairGraph.run_system / run_molecule for the duration of a `with` block."""
     def __init__(self, ff, cert_of=None, info=None, stop=True):
         self.ff, self.cert_of, self.info, self.stop = ff, cert_of, info or {}, stop
-        self.events, self.runs, self.crash = [], [], ''
+        self.events, self.runs, self.crash, self.raised, self.errors = [], [], '', '', []
 
     def __enter__(self):
         import vermouth.processors.repair_graph as rg
@@ -534,8 +534,13 @@ class Recorder:
             vlog.addHandler(cap)
             try:
                 result = rec.orig_sys(proc, system)
+            except Exception as exc:
+                rec.raised = type(exc).__name__
+                raise
             finally:
                 vlog.removeHandler(cap)
+            if rec.ff is None:
+                rec.ff = system.force_field
             rec.finish(system, cap, proc)
             if rec.stop:
                 raise _Stop()
